@@ -274,6 +274,7 @@ func main() {
 		declare("text_"+strings.ReplaceAll(m, ".", "_"), "List String", `["?"]`)
 	}
 	declare("randomFromCryptoRand", "Bool", "false")
+	declare("stateSources", "List String", `["?"]`) // the expressions the state (CSRF token) of a login initiation is drawn from
 	declare("nonceBytes", "Nat", "0")
 	declare("verifierBytes", "Nat", "0")
 
@@ -1236,6 +1237,21 @@ func main() {
 		}
 		if found > 0 {
 			set("randomFromCryptoRand", strconv.FormatBool(okRand), funcs["generateNonce"].decl, "")
+		}
+		// the state: every call into package uuid in defaultInitiateAuthentication (uuid.NewString = version 4, from crypto/rand)
+		if f, ok := funcs["TraefikOidc.defaultInitiateAuthentication"]; ok && f.decl.Body != nil {
+			var srcs []string
+			ast.Inspect(f.decl.Body, func(n ast.Node) bool {
+				if c, ok := n.(*ast.CallExpr); ok {
+					if sel, ok := c.Fun.(*ast.SelectorExpr); ok {
+						if id, ok := sel.X.(*ast.Ident); ok && id.Name == "uuid" {
+							srcs = append(srcs, src(c))
+						}
+					}
+				}
+				return true
+			})
+			set("stateSources", leanStrList(srcs), f.decl, "")
 		}
 	}
 
